@@ -904,6 +904,9 @@ def m_int_try_from(it, args, callee, depth):
         if m:
             m = _re2.match(r"(\S+) (\S+)", "%s %s" % (m.group(2), m.group(1)))
     v = deref_all(it, args[0])
+    if m and isinstance(v, tuple) and v[0] in ("sym", "symop"):
+        # a symbolic value: whether it fits is not known; the outcome stays an opaque value (a later unwrap_or / match keeps it opaque)
+        return ("symop", "try_from:" + m.group(2), v, None)
     if not m or not isinstance(v, int):
         return NotImplemented
     src, dst = m.group(1), m.group(2)
@@ -991,6 +994,8 @@ def m_int_op(name):
     def f(it, args, callee, depth):
         vals = [deref_all(it, a) for a in args]
         if not all(isinstance(v, int) for v in vals):
+            if all(isinstance(v, int) or (isinstance(v, tuple) and v[0] in ("sym", "symop")) for v in vals) and len(vals) == 2:
+                return ("symop", name, vals[0], vals[1])          # symbolic operands: an opaque operation of that name
             return NotImplemented
         import re as _re3
         c_ = callee or {}
@@ -1097,6 +1102,8 @@ def m_unwrap_or_else(it, args, callee, depth):
 
 def m_result_unwrap_or(it, args, callee, depth):
     o = deref_all(it, args[0])
+    if isinstance(o, tuple) and o[0] == "symop" and o[1].startswith("try_from:"):
+        return ("symop", "unwrap_or", o, deref_all(it, args[1]))
     if not (isinstance(o, tuple) and o[0] == "adt" and o[2] in ("Ok", "Err")):
         raise Undecided("Result::unwrap_or on undecided result")
     return o[3][0] if o[2] == "Ok" else args[1]
